@@ -66,32 +66,43 @@ def gen_unit(args):
                 contracts=[], gen_time=0.0, feas_calls=0, stmts=0)
 
 
+# z3 configurations tried in order (refutation portfolio); budgets are fractions of the
+# per-obligation timeout.  'sat' is only accepted from the default configuration.
+PORTFOLIO = [
+  ('z3(ematch,eager)', {'smt.mbqi': False, 'smt.qi.eager_threshold': 50.0, 'smt.qi.lazy_threshold': 200.0}, 0.15),
+  ('z3(ematch)', {'smt.mbqi': False}, 0.2),
+  ('z3(ematch,arith2)', {'smt.mbqi': False, 'smt.arith.solver': 2}, 0.2),
+  ('z3(ematch,seed3)', {'smt.mbqi': False, 'smt.random_seed': 3, 'smt.qi.eager_threshold': 100.0}, 0.2),
+  ('z3', {}, 1.0),
+]
+
+
 def solve_text(args):
   text, timeout_ms, recheck = args
   t0 = time.time()
+  out = None
+  reason = ''
   try:
-    s0 = z3.Solver()
-    s0.set('timeout', max(1000, timeout_ms // 2))
-    s0.set('smt.mbqi', False)
-    s0.from_string(text)
-    r = s0.check()
-    if r == z3.unsat:
-      out = ['proved', 'z3(ematching)', '']
-    else:
+    for name, cfg, frac in PORTFOLIO:
       s = z3.Solver()
-      s.set('timeout', timeout_ms)
+      s.set('timeout', max(1000, int(timeout_ms * frac)))
+      for k, v in cfg.items():
+        s.set(k, v)
       s.from_string(text)
       r = s.check()
       if r == z3.unsat:
-        out = ['proved', 'z3', '']
-      elif r == z3.sat:
+        out = ['proved', name, '']
+        break
+      if r == z3.sat and not cfg:
         out = ['failed', 'z3', '']
+        break
+      reason = 'z3: %s' % s.reason_unknown()
+    if out is None:
+      c, why = solve_mod.run_cvc5(text, timeout_ms / 1000.0)
+      if c == 'unsat':
+        out = ['proved', 'cvc5', '']
       else:
-        c, why = solve_mod.run_cvc5(text, timeout_ms / 1000.0)
-        if c == 'unsat':
-          out = ['proved', 'cvc5', '']
-        else:
-          out = ['unknown', 'z3+cvc5', 'z3: %s; cvc5: %s %s' % (s.reason_unknown(), c, why)]
+        out = ['unknown', 'z3+cvc5', '%s; cvc5: %s %s' % (reason, c, why)]
     if recheck and out[0] == 'proved' and out[1] != 'cvc5':
       c, why = solve_mod.run_cvc5(text, timeout_ms / 1000.0)
       out[2] = 'cvc5 recheck: %s' % c
@@ -151,12 +162,45 @@ def witness_and_replay(prop, unit, obname, repo, outdir):
   return path, confirmed
 
 
+def _witness_task(args):
+  prop, unit, obname, repo, outdir = args
+  try:
+    path, confirmed = witness_and_replay(prop, unit, obname, repo, outdir)
+    return path, confirmed, ''
+  except Exception as e:
+    os.makedirs(outdir, exist_ok=True)
+    path = os.path.join(outdir, re.sub(r'[^A-Za-z0-9_.-]+', '_', '%s__%s' % (unit, obname))[:150] + '.json')
+    with open(path, 'w') as f:
+      json.dump(dict(property=prop, unit=unit, obligation=obname, error=str(e),
+                     traceback=traceback.format_exc()[-3000:]), f, indent=1)
+    return path, False, str(e)
+
+
+def load_baseline(prop):
+  p = os.path.join(ROOT, 'baseline', prop + '.json')
+  if not os.path.exists(p):
+    return {}
+  with open(p) as f:
+    return json.load(f)
+
+
+def write_baseline(prop, gens):
+  os.makedirs(os.path.join(ROOT, 'baseline'), exist_ok=True)
+  out = {}
+  for g in gens:
+    out[g['unit']] = dict(hash=g['hash'], proved=sorted(set(stable(ob['name']) for ob in g['obligations'] if ob['status'] == 'proved')))
+  with open(os.path.join(ROOT, 'baseline', prop + '.json'), 'w') as f:
+    json.dump(out, f, indent=1, sort_keys=True)
+
+
 # ---------------------------------------------------------------------------- check
-def run_check(prop, tier, repo, jobs, seed):
+def run_check(prop, tier, repo, jobs, seed, record_baseline=False):
   t_start = time.time()
   reg = _registry()
   pmod = importlib.import_module('props.' + prop)
   units = sorted(set(getattr(pmod, 'UNITS', [])) | set(n for n, f in reg.functions.items() if prop in f.props))
+  trusted_units = [u for u in units if u in reg.functions and reg.functions[u].trusted]
+  units = [u for u in units if u not in trusted_units]
   if not units:
     print('UNDECIDED property=%s no units' % prop)
     return 2
@@ -179,39 +223,52 @@ def run_check(prop, tier, repo, jobs, seed):
   failed = [ob for ob in all_obs if ob['status'] == 'failed']
   unknown = [ob for ob in all_obs if ob['status'] == 'unknown']
   hash_of = dict((g['unit'], g['hash']) for g in gens)
-  violations = []
+  baseline = load_baseline(prop)
   known_hits = []
-  for ob in failed:
+  suspects = []
+  seen = set()
+  for ob in failed + unknown:
+    key = (ob['unit'], stable(ob['name']))
     hit = None
     for f in open_f:
       if f['unit'] == ob['unit'] and f['obligation'] == stable(ob['name']) and f.get('source_hash') == hash_of.get(ob['unit']):
         hit = f
     if hit is not None:
       known_hits.append((hit, ob))
-    else:
-      violations.append(ob)
+      ob['known'] = True
+    elif key not in seen:
+      seen.add(key)
+      suspects.append(ob)
   lines = []
+  reported = set()
   for f, ob in known_hits:
-    lines.append('KNOWN-FINDING: property=%s %s' % (prop, f['what']))
+    if id(f) not in reported:
+      reported.add(id(f))
+      lines.append('KNOWN-FINDING: property=%s %s' % (prop, f['what']))
   outdir = os.path.join(ROOT, 'replays', prop)
   vio_records = []
-  seen_vio = set()
-  for ob in violations:
-    key = (ob['unit'], stable(ob['name']))
-    if key in seen_vio:
-      continue
-    seen_vio.add(key)
-    try:
-      path, confirmed = witness_and_replay(prop, ob['unit'], ob['name'], repo, outdir)
-    except Exception as e:
-      path, confirmed = os.path.join(outdir, 'error.json'), False
-      os.makedirs(outdir, exist_ok=True)
-      with open(path, 'w') as f:
-        json.dump(dict(property=prop, unit=ob['unit'], obligation=ob['name'], error=str(e),
-                       traceback=traceback.format_exc()[-3000:]), f, indent=1)
-    vio_records.append((ob, path, confirmed))
-    lines.append('VIOLATION property=%s replay=%s%s' % (prop, path, '' if confirmed else ' no-failing-input-found'))
-    lines.append('  failed obligation %s::%s (%s)' % (ob['unit'], ob['name'], ob['desc']))
+  undecided_obs = []
+  if suspects:
+    with cf.ProcessPoolExecutor(max_workers=min(jobs, len(suspects))) as pool:
+      outs = list(pool.map(_witness_task, [(prop, ob['unit'], ob['name'], repo, outdir) for ob in suspects]))
+    for ob, (path, confirmed, note) in zip(suspects, outs):
+      b = baseline.get(ob['unit'], {})
+      changed = b.get('hash') is not None and b.get('hash') != hash_of.get(ob['unit'])
+      was_proved = stable(ob['name']) in b.get('proved', [])
+      if confirmed:
+        vio_records.append((ob, path, True))
+        lines.append('VIOLATION property=%s replay=%s' % (prop, path))
+      elif ob['status'] == 'failed' or (was_proved and changed):
+        # the solver refuted the obligation (or it was discharged on the unchanged tree and the
+        # function's text has changed since) but no input reproduces on the real code
+        vio_records.append((ob, path, False))
+        lines.append('VIOLATION property=%s replay=%s no-failing-input-found' % (prop, path))
+      else:
+        undecided_obs.append(ob)
+        continue
+      lines.append('  failed obligation %s::%s (%s)' % (ob['unit'], ob['name'], ob['desc']))
+  violations = [v[0] for v in vio_records]
+  unknown = undecided_obs
   for g in errors:
     lines.append('UNDECIDED property=%s unit=%s %s' % (prop, g['unit'], (g['error'] or '').split('\n')[0]))
   for ob in unknown:
@@ -234,7 +291,9 @@ def run_check(prop, tier, repo, jobs, seed):
   else:
     code = 0
   wall = time.time() - t_start
-  write_evidence(prop, tier, seed, pmod, gens, all_obs, n_ob, n_dis, known_hits, vio_records, errors, unknown, wall, repo, timeout_ms)
+  if record_baseline and code == 0:
+    write_baseline(prop, gens)
+  write_evidence(prop, tier, seed, pmod, gens, all_obs, n_ob, n_dis, known_hits, vio_records, errors, unknown, wall, repo, timeout_ms, trusted_units)
   for l in lines:
     print(l)
   print('%s property=%s tier=%s units=%d obligations=%d discharged=%d failed=%d unknown=%d errors=%d wall=%.1fs' % (
@@ -242,7 +301,7 @@ def run_check(prop, tier, repo, jobs, seed):
   return code
 
 
-def write_evidence(prop, tier, seed, pmod, gens, all_obs, n_ob, n_dis, known_hits, vio_records, errors, unknown, wall, repo, timeout_ms):
+def write_evidence(prop, tier, seed, pmod, gens, all_obs, n_ob, n_dis, known_hits, vio_records, errors, unknown, wall, repo, timeout_ms, trusted_units=()):
   reg = _registry()
   backends = {}
   for ob in all_obs:
@@ -259,6 +318,7 @@ def write_evidence(prop, tier, seed, pmod, gens, all_obs, n_ob, n_dis, known_hit
              'z3 %s' % z3.get_version_string(), 'cvc5 (for z3 unknowns%s)' % (', and re-check of every obligation' if tier == 'thorough' else ''),
              "CPython 'ast' parser"]
   trusted += ['assumed extern contract: %s' % e for e in externs]
+  trusted += ['assumed (unverified) contract of repository function: %s -- %s' % (u, reg.functions[u].notes) for u in trusted_units]
   trusted += list(getattr(pmod, 'TRUSTED', []))
   ev = dict(
     property_id=prop, tier=tier, seed=seed, level='proof', wall_s=round(wall, 2),
@@ -314,6 +374,8 @@ def main(argv=None):
   c.add_argument('--tier', default=os.environ.get('VERIF_TIER', 'quick'))
   c.add_argument('--repo', default=os.environ.get('VERIF_REPO', '/repo'))
   c.add_argument('--jobs', type=int, default=int(os.environ.get('VERIF_JOBS', '16')))
+  c.add_argument('--record-baseline', action='store_true',
+                 help='on a passing run, record which obligations are discharged (and the source hashes)')
   sub.add_parser('selfcheck')
   a = ap.parse_args(argv)
   os.chdir(ROOT)
@@ -323,7 +385,7 @@ def main(argv=None):
     seed = int(os.environ.get('VERIF_SEED', '0') or 0)
     tier = a.tier if a.tier in ('quick', 'thorough') else 'quick'
     try:
-      return run_check(a.prop, tier, a.repo, a.jobs, seed)
+      return run_check(a.prop, tier, a.repo, a.jobs, seed, a.record_baseline)
     except Exception:
       traceback.print_exc()
       print('UNDECIDED property=%s checker crashed' % a.prop)
